@@ -25,6 +25,11 @@ def trace_stage(ctx, kind, n_cases, tag):
         outs = ev.run()
         for c, r, o in zip(cases, impl, outs):
             good, d = T.compare(c, r, parse(o))
+            if r.get("stale_makeH"):
+                ctx.violation(
+                    "the MPO Hamiltonian was rebuilt from a stale interaction matrix (not the one returned by the "
+                    f"latest interaction_matrix(t) query): (used version, latest version, event#) = {r['stale_makeH'][:3]}",
+                    {"case": {k: v for k, v in c.items()}, "stale": r["stale_makeH"], "finding_key": "stale-interaction-matrix"})
             nev = len(r["events"])
             ctx.count_case({"kind": kind, "N": c["N"], "steps": c["steps"], "times": c["times"][:4],
                             "outcome": r["outcome"], "events": nev, "malformed": c.get("malformed")},
@@ -42,11 +47,30 @@ def trace_stage(ctx, kind, n_cases, tag):
     return ok
 
 
-def e2e_case(rng, n=None, xy=False, reorder=False, local=True):
+def e2e_case(rng, n=None, xy=False, reorder=False, local=True, slm=False):
     n = n or rng.choice([2, 3, 3, 4, 5])
     steps = rng.choice([6, 10, 14])
-    return dict(prob=D.random_problem(rng, n, steps, dt=rng.choice([5.0, 10.0]), xy=xy, local=local),
+    case = dict(prob=D.random_problem(rng, n, steps, dt=rng.choice([5.0, 10.0]), xy=xy, local=local),
                 reorder=reorder)
+    if slm:
+        # SLM-like schedule: interactions of some atoms switched off until t_switch (a grid time or not)
+        times = case["prob"]["times"]
+        masked = sorted(rng.sample(range(n), rng.randint(1, max(1, n - 1))))
+        k = rng.randint(1, steps - 1)
+        case["slm"] = {"masked": masked, "t_switch": times[k] + rng.choice([0.0, 0.3 * (times[k + 1] - times[k])])}
+    return case
+
+
+def U_of_t_factory(case):
+    prob = case["prob"]
+    if "slm" not in case:
+        return lambda t: prob["U"]
+    Um = np.array(prob["U"], dtype=float).copy()
+    for a in case["slm"]["masked"]:
+        Um[a, :] = 0.0
+        Um[:, a] = 0.0
+    ts = case["slm"]["t_switch"]
+    return lambda t: Um if t < ts else prob["U"]
 
 
 def run_e2e(case):
@@ -59,9 +83,13 @@ def run_e2e(case):
         warnings.simplefilter("ignore")
         cfg = emu_mps.MPSConfig(observables=[Occupation(evaluation_times=et), Energy(evaluation_times=et)],
                                 log_level=logging.CRITICAL, optimize_qubit_ordering=case["reorder"])
-        res = emu_mps.MPSBackend._run_from_sequence_data(D.to_sequence_data(prob), cfg)
-    ref, Hs = D.evolve(prob["omega"], prob["delta"], prob["phi"], lambda t: prob["U"], prob["times"],
-                       xy=prob["xy"])
+        Uf = U_of_t_factory(case)
+        res = emu_mps.MPSBackend._run_from_sequence_data(D.to_sequence_data(prob, U_of_t=Uf), cfg)
+    # emu-mps queries the matrix at the midpoint of step 0 and at the start of every later step
+    times = prob["times"]
+    first_mid = 0.5 * (times[0] + times[1])
+    ref, Hs = D.evolve(prob["omega"], prob["delta"], prob["phi"],
+                       lambda t: Uf(first_mid) if t == times[0] else Uf(t), prob["times"], xy=prob["xy"])
     out = []
     for t in et:
         k = round(t * prob["steps"])
@@ -75,7 +103,7 @@ def run_e2e(case):
 def e2e_stage(ctx, n_cases):
     worst = 0.0
     for i in range(n_cases):
-        case = e2e_case(ctx.rng, xy=(i % 4 == 3), reorder=(i % 2 == 1), local=(i % 3 != 2))
+        case = e2e_case(ctx.rng, xy=(i % 4 == 3), reorder=(i % 2 == 1), local=(i % 3 != 2), slm=(i % 5 in (1, 3)))
         prob = case["prob"]
         try:
             errs, order = run_e2e(case)
@@ -88,7 +116,7 @@ def e2e_stage(ctx, n_cases):
         ctx.count_case({"kind": "e2e", "n": prob["n"], "steps": prob["steps"], "xy": prob["xy"],
                         "reorder": case["reorder"], "occ_err": m}, nontrivial=True)
         if m > OCC_TOL or max(e["en_err"] for e in errs) > EN_TOL * max(1.0, prob["n"]):
-            key = "reorder-local-drives" if case["reorder"] else "tdvp-dynamics"
+            key = "slm-schedule" if "slm" in case else ("reorder-local-drives" if case["reorder"] else "tdvp-dynamics")
             ctx.violation(
                 f"emu-mps observables differ from exact evolution of the per-step Hamiltonian (occ err {m:.3g})",
                 {"case": _ser(case), "errors": errs, "atom_order": order, "finding_key": key})
@@ -97,14 +125,20 @@ def e2e_stage(ctx, n_cases):
 
 def _ser(case):
     p = case["prob"]
-    return {"reorder": case["reorder"], "prob": {k: (v.tolist() if hasattr(v, "tolist") else v) for k, v in p.items()}}
+    out = {"reorder": case["reorder"], "prob": {k: (v.tolist() if hasattr(v, "tolist") else v) for k, v in p.items()}}
+    if "slm" in case:
+        out["slm"] = case["slm"]
+    return out
 
 
 def _deser(c):
     p = dict(c["prob"])
     for k in ("omega", "delta", "phi", "U"):
         p[k] = np.array(p[k])
-    return {"reorder": c["reorder"], "prob": p}
+    out = {"reorder": c["reorder"], "prob": p}
+    if "slm" in c:
+        out["slm"] = c["slm"]
+    return out
 
 
 def run(ctx):
